@@ -606,7 +606,10 @@ def monitor_spend_path(py, redeem, src):
     txi.script.values['pubkey'] = py['pubkey']
     txi.script.generate()
     tx._reset()
-    carried = Transaction(tx.raw).inputs[0].script.values['script'].source
+    try:
+        carried = Transaction(tx.raw).inputs[0].script.values['script'].source
+    except Exception as e:  # noqa
+        return f'spending a time lock: the generated input does not read back as script_hash+timelock from the wire ({err_class(e)})'
     if carried != redeem or hash160(carried) != locked.script.values['script_hash']:
         return (f'spending a time lock: the input carries redeem script {carried.hex()[:80]} but the output is locked to '
                 f'hash160 of the given {redeem.hex()[:80]}')
@@ -1290,12 +1293,19 @@ async def wallet_run(case):
         addresses = await source.receiving.get_addresses()
         res = {'txs': [], 'scripts': []}
         ids = {}
+        stored = []
         for n, tx_spec in enumerate(case['txs']):
             address = addresses[n % len(addresses)]
             my_hash = ledger_.address_to_hash160(address)
-            prev = Transaction(height=1).add_outputs([Output.pay_pubkey_hash(10 ** 10, bytes([n + 1]) * 20)])
-            tx = Transaction(height=10 + n, is_verified=True).add_inputs([Input.spend(prev.outputs[0])])
+            spend = (case.get('spends') or {}).get(str(n))
+            if spend:      # funded by the wallet itself: the input spends an output stored earlier in this history
+                spent_txo = stored[spend[0]].outputs[spend[1]]
+                tx = Transaction(height=10 + n, is_verified=True).add_inputs([Input.spend(spent_txo)])
+            else:
+                prev = Transaction(height=1).add_outputs([Output.pay_pubkey_hash(10 ** 10, bytes([n + 1]) * 20)])
+                tx = Transaction(height=10 + n, is_verified=True).add_inputs([Input.spend(prev.outputs[0])])
             tx.add_outputs(wallet_outputs(tx_spec, my_hash))
+            stored.append(tx)
             ids[tx.id] = n
             try:
                 await ledger_.db.insert_transaction(tx)
@@ -1312,10 +1322,13 @@ async def wallet_run(case):
             res['listing_error'] = 'get_transactions: ' + err_class(ex)
             return res
         try:
-            listed = await ledger_.db.get_txos(wallet=wallet, accounts=[source])
+            listed = await ledger_.db.get_txos(wallet=wallet, accounts=[source], include_is_my_input=True,
+                                               include_is_my_output=True)
             res['listed'] = sorted((ids[t.tx_ref.id], t.position) for t in listed)
-            for t in listed:
-                await ledger_.maybe_has_channel_key(t) if hasattr(ledger_, 'maybe_has_channel_key') and False else None
+            enc0 = JSONResponseEncoder(ledger=ledger_)
+            res['internal'] = {(ids[t.tx_ref.id], t.position): [bool(t.is_my_input), bool(t.is_my_output), t.is_internal_transfer,
+                                                                enc0.encode_output(t).get('is_internal_transfer')]
+                               for t in listed}
         except Exception as ex:  # noqa
             res['listing_error'] = 'get_txos: ' + err_class(ex)
             return res
@@ -1396,12 +1409,27 @@ def check_wallet(run, model, case):
             want_row = ROW_OF_CLASS.get(klass, 4 if (i == 0 and linked) else 0)
             if not bad and stored != want_row:
                 bad = f'transaction {n} output {i}: a {klass} script is stored with txo_type {stored}, expected {want_row}'
-            if want_row in (0, 4):
+            spent_set = {tuple(v) for v in (case.get('spends') or {}).values()}
+            if want_row in (0, 4) and (n, i) not in spent_set:
                 exp_utxos.append((n, i))
+            flags_ = res['internal'].get((n, i))
+            if flags_ is not None:
+                my_in, my_out, internal, internal_json = flags_
+                want_in = str(n) in (case.get('spends') or {})
+                want_internal = want_in and my_out and want_row == 0
+                if not bad and (my_in != want_in or internal != want_internal or internal_json != want_internal):
+                    bad = (f'transaction {n} output {i}: a {klass} output paid by the wallet to itself (my input {want_in}) is listed with '
+                           f'is_my_input={my_in}, is_internal_transfer={internal} (encoder: {internal_json}); only a plain payment '
+                           f'from me to me is an internal transfer (change), expected {want_internal}')
+                run.compare('C15.wallet-internal', case, bool(internal),
+                            model.call('internal', scripts=[x.hex() for x in scripts], i=i, my_input=my_in, my_output=my_out))
             # model comparison, output by output
             mv = view[i]
-            run.compare('C15.wallet-row', case, {'row_type': stored, 'spendable': (n, i) in res['utxos']},
-                        {'row_type': mv['row_type'], 'spendable': mv['spendable']})
+            if (n, i) in spent_set:      # already spent inside this history: only the stored type is comparable
+                run.compare('C15.wallet-row', case, {'row_type': stored}, {'row_type': mv['row_type']})
+            else:
+                run.compare('C15.wallet-row', case, {'row_type': stored, 'spendable': (n, i) in res['utxos']},
+                            {'row_type': mv['row_type'], 'spendable': mv['spendable']})
         run.compare('C15.wallet-json', case, enc,
                     [v['type'] for v in view] if all(v['type'] is not None for v in view) else {'error': 'ValueError'})
     exp_utxos.sort()
@@ -1447,6 +1475,27 @@ ODD_PAYLOADS = [b'', b'{"sources": {"lbry_sd_hash": "aa"}, "fee": {"LBC": {"amou
 ODD_NAMES = [b'\xff\xfe', b'\xc3', b'ok\x80', b'\x00', b'']
 
 
+def gen_wallet_history(rng):
+    """the wallet acting on its own outputs: a received payment funds a claim (+change), the claim is UPDATED, supported,
+    supported with data, and some change is moved to itself; optionally a purchase record behind the self-paid output"""
+    good = Purchase('cd' * 20).to_bytes()
+    P = 'pay_pubkey_hash'
+
+    def out(name, amount=10 ** 7):
+        return {'template': name, 'values': gen_wallet_values(rng, name), 'mine': True, 'amount': amount}
+    txs = [[out(P, 5 * 10 ** 8)],
+           [out('claim_name+pay_pubkey_hash'), out(P, 4 * 10 ** 8)],            # 1: spends 0:0
+           [out('update_claim+pay_pubkey_hash')],                                # 2: spends 1:0 (the claim)
+           [out('support_claim+pay_pubkey_hash'), out(P, 3 * 10 ** 8)],          # 3: spends 1:1 (change)
+           [out('support_claim+data+pay_pubkey_hash'), out(P, 2 * 10 ** 8)],     # 4: spends 3:1
+           [out('update_claim+pay_pubkey_hash')],                                # 5: spends 2:0 (second update)
+           [out(P, 10 ** 8), out(P, 9 * 10 ** 7)]]                               # 6: spends 4:1, change only
+    spends = {'1': [0, 0], '2': [1, 0], '3': [1, 1], '4': [3, 1], '5': [2, 0], '6': [4, 1]}
+    if rng.random() < 0.5:
+        txs[rng.choice([2, 5, 6])].insert(1, {'raw': OutputScript.return_data(good).source.hex()})
+    return {'op': 'wallet', 'chain': 'single', 'txs': txs, 'spends': spends}
+
+
 def gen_wallet_values(rng, name, odd=None):
     vals = {}
     for f in FIELDS['output'][name]:
@@ -1470,6 +1519,81 @@ def gen_wallet_odd_case(rng, odd):
         txs.append([{'template': name, 'values': gen_wallet_values(rng, name, odd), 'mine': True},
                     {'template': 'pay_pubkey_hash', 'values': gen_wallet_values(rng, 'pay_pubkey_hash'), 'mine': True, 'amount': 10 ** 6}])
     return {'op': 'wallet', 'chain': 'single', 'txs': txs}
+
+
+def build_signable(case):
+    k = case['kind']
+    if k == 'purchase':
+        return Purchase(case['claim_id']), 'data', 'return_data'
+    if k.startswith('support'):
+        sg = Support()
+        if case.get('title'):
+            sg.emoji = case['title']
+        if case.get('comment'):
+            sg.comment = case['comment']
+        field, tname = 'support', 'support_claim+data+pay_pubkey_hash'
+    else:
+        sg = Claim()
+        sg.stream.title = case.get('title', 'x')
+        if case.get('comment'):
+            sg.stream.description = case['comment']
+        field = 'claim'
+        tname = 'update_claim+pay_pubkey_hash' if k.startswith('update') else 'claim_name+pay_pubkey_hash'
+    if case.get('signed'):
+        sg.signing_channel_hash = bytes.fromhex(case['channel'])
+        sg.signature = bytes.fromhex(case['signature'])
+    return sg, field, tname
+
+
+def check_object_values(run, model, case):
+    """template values given as the wallet gives them: Claim / Support / Purchase OBJECTS (signed by a channel or not), not bytes.
+    push_data asks len(value) and bytes(value): the generated script must be the minimal-push assembly of bytes(value) and
+    parse back to exactly those bytes, alone and inside a transaction"""
+    run.case(case, nontrivial=True)
+    run.count('object-value:' + case['kind'] + ('+signed' if case.get('signed') else ''))
+    obj, field, tname = build_signable(case)
+    pkh, cid, name = bytes.fromhex(case['pubkey_hash']), case['claim_id'], case['name']
+    sig = {'op': 'object_values', 'kind': case['kind'], 'signed': bool(case.get('signed'))}
+    try:
+        if tname == 'return_data':
+            txo = Output.add_purchase_data(obj)
+        elif field == 'support':
+            txo = Output.pay_support_data_pubkey_hash(1000, name, cid, obj, pkh)
+        elif tname.startswith('update'):
+            txo = Output.pay_update_claim_pubkey_hash(1000, name, cid, obj, pkh)
+        else:
+            txo = Output.pay_claim_name_pubkey_hash(1000, name, obj, pkh)
+        src = txo.script.source
+    except Exception as e:  # noqa
+        run.violation(case, f'generating {tname} from a {type(obj).__name__} object raised {err_class(e)}', signature=sig)
+        return
+    payload = obj.to_bytes()
+    flat = {'data': payload} if tname == 'return_data' else \
+        {k: (payload if k == field else (v if isinstance(v, bytes) else bytes(v))) for k, v in txo.script.values.items()}
+    shape = OUT_SHAPE[tname][0]
+    want = ref_assemble(shape, flat)
+    bad = None
+    if len(obj) != len(payload):
+        bad = (f'len() of the {type(obj).__name__} value is {len(obj)} but it serialises to {len(payload)} bytes: push_data writes the '
+               f'wrong length prefix')
+    elif src != want:
+        bad = f'{tname}: the script generated from a {type(obj).__name__} object is not the minimal-push assembly of its bytes'
+    if not bad:
+        try:
+            prev = Transaction().add_outputs([Output.pay_pubkey_hash(5000, b'\x07' * 20)])
+            tx = Transaction().add_inputs([Input.spend(prev.outputs[0])]).add_outputs([txo])
+            for fresh in (OutputScript(src), Transaction(tx.raw).outputs[0].script):
+                if fresh.template.name != tname or fresh.values[field] != payload:
+                    bad = f'{tname}: generated from a {type(obj).__name__} object, parses back as {fresh.template.name} with another payload'
+        except Exception as e:  # noqa
+            bad = f'{tname}: the script generated from a {"signed " if case.get("signed") else ""}{type(obj).__name__} object does not parse back ({err_class(e)})'
+    if bad:
+        run.violation(case, bad, signature=sig)
+        return
+    vals = {k: {'b': v.hex()} for k, v in flat.items()}
+    run.compare('C15.object-values', case, {'source': src.hex()}, {'source': model.call('generate', template=tname, values=vals)})
+    ip = impl_parse('output', src)
+    run.compare('C15.object-values-parse', case, ip, align_row(ip, model_parse(model, 'output', src)))
 
 
 def check_clear_signature(run, model, case):
@@ -1540,6 +1664,8 @@ def dispatch(run, model, case):
         check_wallet(run, model, case)
     elif op == 'clear_signature':
         check_clear_signature(run, model, case)
+    elif op == 'object_values':
+        check_object_values(run, model, case)
     else:
         raise ValueError('unknown case ' + op)
 
@@ -1657,8 +1783,20 @@ def main(run):
     # ---- the wallet on top: stored type, coin filter, Account.fund(everything=True), the daemon's JSON encoder ----
     for i in range(vlib.scaled(run.tier, 5, 300)):
         check_wallet(run, model, gen_wallet_case(rng, chain='hd' if i % 5 == 3 else 'single'))
+    for i in range(vlib.scaled(run.tier, 3, 100)):
+        check_wallet(run, model, gen_wallet_history(rng))
     for i in range(vlib.scaled(run.tier, 2, 120)):
         check_wallet(run, model, gen_wallet_odd_case(rng, 'payload' if i % 2 == 0 else 'name'))
+
+    # ---- values given as schema objects, signed by a channel or not ----
+    for kind in ('claim', 'update', 'support+data', 'purchase'):
+        for signed in ((False, True) if kind != 'purchase' else (False,)):
+            for _ in range(vlib.scaled(run.tier, 3, 60)):
+                check_object_values(run, model, {
+                    'op': 'object_values', 'kind': kind, 'signed': signed, 'name': rng.choice(['name', '@chan', 'a']),
+                    'claim_id': rng.randbytes(20).hex(), 'title': rng.choice(['', 'x', 'hello', '\U0001F44D']),
+                    'comment': rng.choice(['', 'c' * rng.choice([1, 60, 75, 160, 250, 300])]),
+                    'pubkey_hash': rng.randbytes(20).hex(), 'channel': rng.randbytes(20).hex(), 'signature': rng.randbytes(64).hex()})
 
     # ---- signature cleared after the script was generated ----
     for kind in ('claim', 'update', 'support+data'):
